@@ -294,6 +294,14 @@ func (g *c07Gen) stmts(depth int, vis []string) []*mj.Node {
 				continue
 			}
 			n := &mj.Node{K: "range", E: g.rangerExpr(ri), Names: []string{nm}}
+			switch g.n(0, 3, "rsetdiscard") { // the other slot of the two-variable form is discarded
+			case 0:
+				n.Names = []string{"_", nm}
+				g.labels["range-set-form-discard"] = true
+			case 1:
+				n.Names = []string{nm, "_"}
+				g.labels["range-set-form-discard"] = true
+			}
 			n.Body = g.probes(vis)
 			out = append(out, n)
 			out = append(out, g.probes(vis)...)
